@@ -3,6 +3,7 @@ package main
 import (
 	"fmt"
 	"math"
+	"regexp"
 	"strconv"
 	"strings"
 	"unicode"
@@ -16,11 +17,11 @@ import (
 func init() { gens["C04"] = genC04 }
 
 type c04Input struct {
-	Unit    string   `json:"unit"`  // Go-quoted
-	Value   string   `json:"value"` // as written on the benchmark line
-	Bits    string   `json:"value_bits"`
-	Unit2   string   `json:"unit2,omitempty"`
-	Val2    string   `json:"val2,omitempty"`
+	Unit    string `json:"unit"`  // Go-quoted
+	Value   string `json:"value"` // as written on the benchmark line
+	Bits    string `json:"value_bits"`
+	Unit2   string `json:"unit2,omitempty"`
+	Val2    string `json:"val2,omitempty"`
 	Lookups []string `json:"lookups,omitempty"`
 }
 
@@ -200,9 +201,9 @@ func c04One(o *hx.Out, r *hx.Rng, u string, v float64, tags ...string) (err erro
 }
 
 type c04SeqInput struct {
-	Kind    string   `json:"kind"`
-	Text    string   `json:"text"` // Go-quoted
-	Filter  string   `json:"filter"`
+	Kind    string `json:"kind"`
+	Text    string `json:"text"` // Go-quoted
+	Filter  string `json:"filter"`
 	Lookups []string `json:"lookups"`
 }
 
@@ -217,6 +218,37 @@ type c04SeqLine struct {
 // c04Seq reads a whole text through ONE Reader (one unit table) and judges
 // every result with ONE Filter (Match, then Apply), in order.
 func c04Seq(o *hx.Out, lit string, lines []c04SeqLine, lookups []string, tags ...string) (err error) {
+	return c04SeqF(o, []c04Term{{Lit: lit}}, false, lines, lookups, tags...)
+}
+
+// c04Term is one member of a .unit term: a literal or a regexp.
+type c04Term struct {
+	Lit string
+	Re  string
+}
+
+func (t c04Term) String() string {
+	if t.Re != "" {
+		return "/" + t.Re + "/"
+	}
+	return strconv.Quote(t.Lit)
+}
+
+// c04SeqF: like c04Seq with the filter ".unit:" + one term, or
+// ".unit:(t1 OR t2 ...)" (list), terms being literals and regexps.  The case
+// carries regexp.MatchString for every (pattern, unit) the evaluator can ask.
+func c04SeqF(o *hx.Out, terms []c04Term, list bool, lines []c04SeqLine, lookups []string, tags ...string) (err error) {
+	var lit string
+	general := list || len(terms) != 1 || terms[0].Re != ""
+	if !general {
+		lit = terms[0].Lit
+	} else {
+		var ts []string
+		for _, t := range terms {
+			ts = append(ts, t.String())
+		}
+		lit = strings.Join(ts, " OR ")
+	}
 	defer func() {
 		if p := recover(); p != nil {
 			err = fmt.Errorf("PANIC-INPUT seq filter=%q: %v", lit, p)
@@ -235,10 +267,25 @@ func c04Seq(o *hx.Out, lit string, lines []c04SeqLine, lookups []string, tags ..
 		sb.WriteString("\n")
 	}
 	text := sb.String()
-	flt, ferr := benchproc.NewFilter(".unit:" + strconv.Quote(lit))
+	query := ".unit:" + strconv.Quote(lit)
+	if general {
+		query = ".unit:(" + lit + ")"
+		if !list {
+			query = ".unit:" + lit
+		}
+	}
+	flt, ferr := benchproc.NewFilter(query)
 	if ferr != nil {
 		o.Count("filter-unparsable")
 		return nil
+	}
+	cands := map[string]bool{}
+	var candList []string
+	cand := func(u string) {
+		if !cands[u] {
+			cands[u] = true
+			candList = append(candList, u)
+		}
 	}
 	items := make([]hx.Sx, len(lines))
 	recs := make([][]hx.Sx, len(lines))
@@ -264,6 +311,11 @@ func c04Seq(o *hx.Out, lit string, lines []c04SeqLine, lookups []string, tags ..
 					pv = v.OrigValue
 				}
 				wr = append(wr, hx.L(hx.S(l.us[i]), hx.F64(pv)))
+				_, tu := benchunit.Tidy(1, l.us[i])
+				cand(l.us[i])
+				cand(tu)
+				cand(v.Unit)
+				cand(v.OrigUnit)
 			}
 			m, merr := flt.Match(x)
 			if merr != nil {
@@ -299,9 +351,273 @@ func c04Seq(o *hx.Out, lit string, lines []c04SeqLine, lookups []string, tags ..
 		q = append(q, strconv.Quote(x))
 	}
 	o.Count(fmt.Sprintf("sequence:lines=%d", len(lines)))
-	o.Add(hx.L(hx.I(2), hx.S(lit), hx.List(items), hx.List(gets)),
-		c04SeqInput{Kind: "sequence", Text: strconv.Quote(text), Filter: ".unit:" + strconv.Quote(lit), Lookups: q},
-		"seq\x00"+lit+"\x00"+text, true, append(tags, "sequence")...)
+	if !general {
+		o.Add(hx.L(hx.I(2), hx.S(lit), hx.List(items), hx.List(gets)),
+			c04SeqInput{Kind: "sequence", Text: strconv.Quote(text), Filter: query, Lookups: q},
+			"seq\x00"+lit+"\x00"+text, true, append(tags, "sequence")...)
+		return nil
+	}
+	var tx, orc []hx.Sx
+	for _, t := range terms {
+		if t.Re == "" {
+			tx = append(tx, hx.L(hx.I(0), hx.S(t.Lit)))
+			continue
+		}
+		tx = append(tx, hx.L(hx.I(1), hx.S(t.Re)))
+		re, e := regexp.Compile(t.Re)
+		if e != nil {
+			return e
+		}
+		for _, u := range candList {
+			orc = append(orc, hx.L(hx.S(t.Re), hx.S(u), hx.Bool(re.MatchString(u))))
+		}
+	}
+	o.Add(hx.L(hx.I(3), hx.List(tx), hx.List(orc), hx.List(items), hx.List(gets)),
+		c04SeqInput{Kind: "sequence", Text: strconv.Quote(text), Filter: query, Lookups: q},
+		"seqf\x00"+query+"\x00"+text, true, append(tags, "sequence", "filter-terms")...)
+	return nil
+}
+
+// c04GenSeqF: result lines of 2-4 measurements judged by .unit regexps and
+// literal lists chosen so that, in ONE line, one measurement is named only by
+// its written unit, another by its base unit, others not at all.
+func c04GenSeqF(o *hx.Out, r *hx.Rng, n int) error {
+	units := []string{"ns/op", "sec/op", "B/op", "MB/s", "B/s", "allocs/op", "ns", "sec", "MB", "B", "widgets", "op/ns", "MB*ns/op", "x-ns", "nsx/op", "Åns/op"}
+	res := []string{`^(ns|B).op$`, `^(MB|sec)`, `ns|allocs`, `^sec|^MB`, `[/]op$`, `^B`, `^ns[/]op$`, `op$`, `^(sec|MB)[/](op|s)$`, `.`, `^$`,
+		`(?i)NS`, `s$`, `^(ns|MB)`, `^(sec|B)([/]|$)`, `^[a-z]+[/]op$`, `^.?B`, `ns`, `MB`, `sec.op|MB.s`, `^(ns.op|B.s)$`}
+	lists := [][]c04Term{
+		{{Lit: "ns/op"}, {Lit: "B/op"}}, {{Lit: "sec/op"}, {Lit: "MB/s"}}, {{Lit: "ns/op"}, {Re: `^B`}}, {{Re: `^ns`}, {Lit: "B/s"}},
+		{{Lit: "MB/s"}, {Lit: "sec/op"}, {Lit: "allocs/op"}}, {{Lit: "widgets"}}, {{Re: `^sec`}, {Re: `^MB`}}, {{Lit: "ns"}, {Lit: "B"}},
+	}
+	line := func(us ...string) c04SeqLine {
+		l := c04SeqLine{us: us}
+		for range us {
+			l.vs = append(l.vs, c04Value(r))
+		}
+		return l
+	}
+	mixed := func(terms []c04Term, us []string) {
+		// does the line have a measurement named only as written and another named by its base unit?
+		onlyWritten, byBase := false, false
+		for _, u := range us {
+			_, tu := benchunit.Tidy(1, u)
+			mw, mb := false, false
+			for _, t := range terms {
+				if t.Re != "" {
+					re := regexp.MustCompile(t.Re)
+					mw = mw || re.MatchString(u)
+					mb = mb || re.MatchString(tu)
+				} else {
+					mw = mw || t.Lit == u
+					mb = mb || t.Lit == tu
+				}
+			}
+			if tu != u && mw && !mb {
+				onlyWritten = true
+			}
+			if mb {
+				byBase = true
+			}
+		}
+		if onlyWritten && byBase {
+			o.Count("class:filter-terms:one-line-matches-one-by-written-only-and-one-by-base")
+		}
+	}
+	lookups := []string{"ns/op", "sec/op", "B/op"}
+	// directed: the documented example and its relatives
+	directed := []struct {
+		terms []c04Term
+		list  bool
+		us    []string
+	}{
+		{[]c04Term{{Re: `^(ns|B).op$`}}, false, []string{"ns/op", "B/op"}},
+		{[]c04Term{{Re: `^(ns|B).op$`}}, false, []string{"B/op", "ns/op", "allocs/op"}},
+		{[]c04Term{{Lit: "ns/op"}, {Lit: "B/op"}}, true, []string{"ns/op", "B/op"}},
+		{[]c04Term{{Lit: "ns/op"}, {Lit: "B/op"}}, true, []string{"allocs/op", "B/op", "ns/op", "MB/s"}},
+		{[]c04Term{{Re: `^(MB|sec)`}}, false, []string{"MB/s", "ns/op"}},
+		{[]c04Term{{Re: `^(MB|sec)`}}, false, []string{"ns/op", "MB/s", "sec", "B/s"}},
+		{[]c04Term{{Lit: "sec/op"}, {Lit: "MB/s"}}, true, []string{"ns/op", "MB/s"}},
+		{[]c04Term{{Re: `ns|allocs`}}, false, []string{"ns/op", "allocs/op", "B/op"}},
+		{[]c04Term{{Lit: "ns/op"}, {Re: `^B`}}, true, []string{"ns/op", "MB/s", "B/op"}},
+	}
+	for _, d := range directed {
+		mixed(d.terms, d.us)
+		if err := c04SeqF(o, d.terms, d.list, []c04SeqLine{line(d.us...), line(d.us[len(d.us)-1], d.us[0])}, lookups, "directed"); err != nil {
+			return err
+		}
+	}
+	for i := 0; i < n; i++ {
+		var terms []c04Term
+		list := false
+		switch r.Intn(3) {
+		case 0:
+			terms, list = lists[r.Intn(len(lists))], true
+		case 1:
+			list = true
+			for j := 0; j < r.Range(1, 3); j++ {
+				if r.Bool() {
+					terms = append(terms, c04Term{Lit: units[r.Intn(len(units))]})
+				} else {
+					terms = append(terms, c04Term{Re: res[r.Intn(len(res))]})
+				}
+			}
+		default:
+			terms = []c04Term{{Re: res[r.Intn(len(res))]}}
+		}
+		var lines []c04SeqLine
+		for j := 0; j < r.Range(1, 3); j++ {
+			var us []string
+			for k := 0; k < r.Range(2, 4); k++ {
+				us = append(us, units[r.Intn(10)+r.Intn(2)*r.Intn(len(units)-9)])
+			}
+			mixed(terms, us)
+			if r.Chance(0.2) {
+				lines = append(lines, c04SeqLine{unit: true, u: us[0], val: []string{"lower", "higher"}[r.Intn(2)]})
+			}
+			lines = append(lines, line(us...))
+		}
+		if err := c04SeqF(o, terms, list, lines, lookups, "random"); err != nil {
+			return err
+		}
+	}
+	return nil
+}
+
+// ---------- benchunit.Tidy called directly, in order, in this process ----------
+
+type c04TidyCall struct {
+	Unit  string `json:"unit"` // Go-quoted
+	Value string `json:"value"`
+}
+type c04TidySeqInput struct {
+	Kind  string        `json:"kind"` // tidy-sequence
+	Calls []c04TidyCall `json:"calls"`
+}
+
+// c04TidySeq calls benchunit.Tidy on the units in order (the memo table of
+// tidy.go is process-wide: what an earlier call left behind is part of the input).
+func c04TidySeq(o *hx.Out, r *hx.Rng, us []string, tags ...string) (err error) {
+	defer func() {
+		if p := recover(); p != nil {
+			err = fmt.Errorf("PANIC-INPUT tidy sequence %q: %v", us, p)
+		}
+	}()
+	in := c04TidySeqInput{Kind: "tidy-sequence"}
+	var calls []hx.Sx
+	for _, u := range us {
+		v := c04Value(r)
+		if r.Chance(0.5) {
+			v = float64(1 + r.Intn(1000))
+		}
+		tv, tu := benchunit.Tidy(v, u)
+		calls = append(calls, hx.L(hx.S(u), hx.F64(v), hx.L(hx.F64(tv), hx.S(tu))))
+		in.Calls = append(in.Calls, c04TidyCall{Unit: strconv.Quote(u), Value: c04FmtFloat(v)})
+	}
+	o.Count(fmt.Sprintf("tidy-sequence:calls=%d", len(us)))
+	o.Add(hx.L(hx.I(4), hx.List(calls)), in, "tidyseq\x00"+strings.Join(us, "\x00")+fmt.Sprint(in.Calls), true, append(tags, "tidy-sequence")...)
+	return nil
+}
+
+// c04GenTidySeqs: (a) a unit whose base form still contains ns / MB (in a
+// denominator, or inside another word), tidied first, then its base form, in
+// every order and repeated; made fresh to the memo table by a unique
+// denominator token; (b) units in which ns / MB follows a non-ASCII letter
+// whose UTF-8 encoding ends in 0x85 or 0xA0, and ns / MB after multi-byte
+// white space.
+func c04GenTidySeqs(o *hx.Out, r *hx.Rng, n int) error {
+	pairs := [][2]string{{"ns/ns", "sec/ns"}, {"MB/MB-x", "B/MB-x"}, {"ns/turns", "sec/turns"}, {"MB/ns", "B/ns"}, {"ns-xns", "sec-xns"},
+		{"ns/op/MB", "sec/op/MB"}, {"MB*ns/MB", "B*sec/MB"}, {"ns nsx", "sec nsx"}, {"MB-MBps", "B-MBps"}, {"ns/MB*ns", "sec/MB*sec"},
+		{"turns*ns", "turns*sec"}, {"ns\u2003ns/ns", "sec\u2003sec/ns"}}
+	id := 0
+	fresh := func(p [2]string) [2]string {
+		id++
+		sfx := fmt.Sprintf("/q%d", id)
+		return [2]string{p[0] + sfx, p[1] + sfx}
+	}
+	orders := [][]int{{0, 1}, {1, 0}, {0, 1, 0, 1}, {0, 0, 1}, {1, 1, 0, 1}}
+	seq := func(p [2]string, order []int, tags ...string) error {
+		var us []string
+		for _, k := range order {
+			us = append(us, p[k])
+		}
+		if order[0] == 0 {
+			o.Count("class:tidy-sequence:unit-then-its-base-form-still-containing-ns/MB")
+		} else {
+			o.Count("class:tidy-sequence:base-form-then-unit")
+		}
+		return c04TidySeq(o, r, us, tags...)
+	}
+	// the bare forms first: nothing in this process has tidied them yet
+	for _, p := range pairs {
+		if err := seq(p, []int{0, 1}, "directed"); err != nil {
+			return err
+		}
+	}
+	for _, p := range pairs {
+		for _, order := range orders {
+			if err := seq(fresh(p), order, "directed"); err != nil {
+				return err
+			}
+		}
+	}
+	// (b) bytes 0x85 / 0xA0 directly before ns / MB
+	letters := []string{"Å", "à", "ą", "Š", "ḅ", "req\u00e0", "\u0145", "\u4e85", "\u5ea0"} // C3 85, C3 A0, C4 85, C5 A0, E1 B8 85, ..., C5 85, E4 BA 85, E5 BA A0
+	spaces := []string{"\u2003", "\u00a0", "\u0085", "\u2005", "\u3000", "\u1680"}
+	for _, l := range letters {
+		for _, t := range []string{"ns", "MB"} {
+			for _, tail := range []string{"", "/op", "/s", "*x", " y"} {
+				id++
+				if err := c04TidySeq(o, r, []string{l + t + tail, "x" + l + t + tail, fmt.Sprintf("q%d-%s%s%s", id, l, t, tail)}, "directed", "byte-85-A0-before-token"); err != nil {
+					return err
+				}
+				o.Count("class:tidy-sequence:ns/MB-after-letter-ending-in-0x85/0xA0")
+			}
+		}
+	}
+	for _, sp := range spaces {
+		for _, t := range []string{"ns", "MB"} {
+			id++
+			if err := c04TidySeq(o, r, []string{"x" + sp + t + "/op", t + sp + t, fmt.Sprintf("q%d%s%s", id, sp, t), "x/y" + sp + t}, "directed", "token-after-unicode-space"); err != nil {
+				return err
+			}
+			o.Count("class:tidy-sequence:ns/MB-after-multibyte-space")
+		}
+	}
+	// random: fresh units from the grammar, each followed (or preceded) by its base form as the real Tidy reports it
+	for i := 0; i < n; i++ {
+		var sb strings.Builder
+		k := r.Range(2, 5)
+		for j := 0; j < k; j++ {
+			if j > 0 {
+				sb.WriteString(c04Sep[r.Intn(8)])
+			}
+			switch r.Intn(4) {
+			case 0:
+				sb.WriteString(letters[r.Intn(len(letters))] + []string{"ns", "MB"}[r.Intn(2)])
+			case 1:
+				sb.WriteString(c04Comp[r.Intn(len(c04Comp))])
+			default:
+				sb.WriteString(c04Comp[r.Intn(5)])
+			}
+		}
+		id++
+		u := sb.String() + fmt.Sprintf("/q%d", id)
+		if r.Chance(0.5) {
+			// the base form first: computed on a sibling (same unit, different unique token)
+			_, tsib := benchunit.Tidy(1, sb.String()+fmt.Sprintf("/q%ds", id))
+			base := strings.TrimSuffix(tsib, "s")
+			o.Count("class:tidy-sequence:base-form-then-unit")
+			if err := c04TidySeq(o, r, []string{base, u, base}, "random"); err != nil {
+				return err
+			}
+			continue
+		}
+		_, tu := benchunit.Tidy(1, u)
+		o.Count("class:tidy-sequence:unit-then-its-base-form-still-containing-ns/MB")
+		if err := c04TidySeq(o, r, []string{u, tu, u, tu}[:r.Range(2, 4)], "random"); err != nil {
+			return err
+		}
+	}
 	return nil
 }
 
@@ -387,18 +703,28 @@ func c04Value(r *hx.Rng) float64 {
 	return float64(r.Intn(100000)) / 8
 }
 
-var c04Comp = []string{"ns", "MB", "B", "sec", "op", "s", "bytes", "xns", "nsx", "MBps", "µs", "é", "nsMB", "n", "M",
+var c04Comp = []string{"ns", "MB", "B", "sec", "op", "s", "bytes", "xns", "nsx", "MBps", "µs", "é", "nsMB", "n", "M", "Åns", "àMB", "ąns", "turns",
 	"", "\xff", "\xe2\x80", "\xc2", "ns\xe2", "\xf0\x9f\x98\x80", "allocs", "MBB", "NS", "mb"}
-var c04Sep = []string{"/", "*", "-", " ", "\t", "\u00a0", "\u2028", "\u3000", "\u0085", "\v", "//", "*/", "/*", "\u1680", "\n", "\u200b"}
+var c04Sep = []string{"/", "*", "-", " ", "\t", "\u00a0", "\u2028", "\u3000", "\u0085", "\v", "//", "*/", "/*", "\u1680", "\n", "\u200b", "\u2003"}
 
 func genC04(o *hx.Out, r *hx.Rng, tier string, replay string) error {
-	o.Rule = "units built from components {ns MB B sec op s bytes xns nsx MBps µs é nsMB '' invalid-UTF-8 …} joined by / * - and ASCII/Unicode white space (exhaustive over a small alphabet up to a bound, then random longer ones, plus the fast-path literals and near misses), each with values from {0,-0,±Inf,NaN,subnormal,max,…} and random bit patterns; observed: benchunit.Tidy (twice), benchfmt.Reader Values, UnitMetadataMap.Get, .unit filters; plus sequences of 2-4 results of one metric written under its written and its base unit in every order (with unit lines in between) read through ONE Reader and judged by ONE Filter (Match then Apply), each result independently. non-trivial = the unit is rewritten; distinct by (unit, value bits)"
+	o.Rule = "units built from components {ns MB B sec op s bytes xns nsx MBps µs é nsMB '' invalid-UTF-8 …} joined by / * - and ASCII/Unicode white space (exhaustive over a small alphabet up to a bound, then random longer ones, plus the fast-path literals and near misses), each with values from {0,-0,±Inf,NaN,subnormal,max,…} and random bit patterns; observed: benchunit.Tidy (twice), benchfmt.Reader Values, UnitMetadataMap.Get, .unit filters; plus sequences of 2-4 results of one metric written under its written and its base unit in every order (with unit lines in between) read through ONE Reader and judged by ONE Filter (Match then Apply), each result independently; the same with .unit regexps and value lists (.unit:/re/, .unit:(a OR /re/ ...)) on lines of 2-4 measurements where one measurement is named only by its written unit and another by its base unit (regexp.MatchString recorded per (pattern, unit)); and benchunit.Tidy called directly in order within this process, first of all (empty memo table): a unit whose base form still contains ns/MB and then that base form (every order, repeated; fresh units through a unique denominator token), units with ns/MB directly after a letter whose UTF-8 encoding ends in 0x85/0xA0, and ns/MB after multi-byte white space. non-trivial = the unit is rewritten; distinct by (unit, value bits)"
 	// table case: the rune class and float constants the model is evaluated with
 	o.Add(hx.L(hx.I(0), hx.List(unicodeRanges(unicode.IsSpace)), hx.F64(1e-9), hx.F64(1e6), hx.F64(1e9)),
 		map[string]string{"kind": "tables"}, "tables", false)
 
+	// direct Tidy sequences first: the memo table of tidy.go is still empty
+	ntseq := 300
+	if tier == "thorough" {
+		ntseq = 8000
+	}
+	if err := c04GenTidySeqs(o, r, ntseq); err != nil {
+		return err
+	}
+
 	// literals of the fast paths and near misses, every special value
-	lits := []string{"ns/op", "MB/s", "B/op", "allocs/op", "ns", "MB", "sec/op", "B/s", "ns/op ", "MB/s/ns", "ns/ns", "MB*ns",
+	lits := []string{"Åns/op", "reqàns/op", "ąMB/s", "Šns", "x\u2003ns", "ns\u2003MB/s", "Å", "àMB*ns",
+		"ns/op", "MB/s", "B/op", "allocs/op", "ns", "MB", "sec/op", "B/s", "ns/op ", "MB/s/ns", "ns/ns", "MB*ns",
 		"op/ns", "ns-MB", "ns*MB/MB*ns", "Mns", "nsMB", "", "-", "/", "*", " ", "ns op", "/ns", "*ns", "//ns", "/*ns", "ns/", "ns\xff", "\xffns",
 		"ns MB", "x/ns ns", "ns/op\r"}
 	for _, u := range lits {
@@ -442,6 +768,9 @@ func genC04(o *hx.Out, r *hx.Rng, tier string, replay string) error {
 		nseq = 15000
 	}
 	if err := c04GenSeq(o, r, nseq); err != nil {
+		return err
+	}
+	if err := c04GenSeqF(o, r, nseq); err != nil {
 		return err
 	}
 	// random
